@@ -87,6 +87,77 @@ extern "C" const char *__asan_default_options() { return "malloc_context_size=3"
 #include "C15_dns.inc"
 #include "C15_rad.inc"
 
+// ---------------------------------------------------------------- DNS header section counts
+// dns_hdr_{qd,an,ns,ar}_{set,inc,dec,get}: the four 16-bit counts live in network byte order at offsets 4..11
+// (RFC 1035 4.1.1); arithmetic on them is arithmetic on the numbers, whatever the host byte order.
+struct HdrOp { int op = 0, section = 0, val = 0; };  // op 0 inc, 1 dec, 2 set
+struct HdrCase {
+  int init[4] = {0, 0, 0, 0};
+  std::vector<HdrOp> ops;
+  std::string ser() const {
+    Writer w;
+    w.iv("init", {init[0], init[1], init[2], init[3]}).i("nops", (long long)ops.size());
+    for (size_t i = 0; i < ops.size(); i++) w.iv(("o" + std::to_string(i)).c_str(), {ops[i].op, ops[i].section, ops[i].val});
+    return w.str();
+  }
+  static HdrCase parse(const std::string &t) {
+    Reader r(t);
+    HdrCase c;
+    auto v = r.iv("init");
+    v.resize(4, 0);
+    for (int i = 0; i < 4; i++) c.init[i] = (int)v[i];
+    int n = (int)r.i("nops");
+    for (int i = 0; i < n; i++) {
+      auto o = r.iv(("o" + std::to_string(i)).c_str());
+      o.resize(3, 0);
+      c.ops.push_back(HdrOp{(int)o[0], (int)o[1], (int)o[2]});
+    }
+    return c;
+  }
+};
+void showValue(const HdrCase &c, std::ostream &os) { os << c.ser(); }
+
+static Verdict run_hdr(const HdrCase &c) {
+  XBuf b(12);
+  size_t sz = SENT;
+  REQ(px_dns_hdr_create(b.p, 12, 0x1234, 0x8180, &sz) == 0 && sz == 12, "dns_hdr_create failed on a 12 byte buffer");
+  uint16_t model[4];
+  const Bytes head = b.bytes(4);  // id and flags as the library wrote them: count operations must leave them alone
+  for (int s = 0; s < 4; s++) { model[s] = (uint16_t)c.init[s]; px_dns_hdr_set(b.p, s, model[s]); }
+  bool crossed = false;
+  for (size_t i = 0; i <= c.ops.size(); i++) {
+    for (int s = 0; s < 4; s++) {
+      unsigned wire = ((unsigned)b.p[4 + 2 * s] << 8) | b.p[5 + 2 * s];
+      REQ(wire == model[s], "after " << i << " operation(s): section " << s << " count on the wire is " << wire << " (bytes " << hex(b.p + 4 + 2 * s, 2) << "), the operations give " << model[s]);
+      REQ(px_dns_hdr_cnt(b.p, s) == model[s], "after " << i << " operation(s): section " << s << " getter returns " << px_dns_hdr_cnt(b.p, s) << ", expected " << model[s]);
+    }
+    REQ(b.bytes(4) == head, "count operation modified the id / flags bytes: " << hex(b.p, 4) << " (were " << hex(head.data(), 4) << ")");
+    if (i == c.ops.size()) break;
+    const HdrOp &o = c.ops[i];
+    int s = o.section & 3;
+    uint16_t v = (uint16_t)o.val, before = model[s];
+    switch (o.op) {
+    case 0: px_dns_hdr_inc(b.p, s, v); model[s] = (uint16_t)(model[s] + v); break;
+    case 1: px_dns_hdr_dec(b.p, s, v); model[s] = (uint16_t)(model[s] - v); break;
+    default: px_dns_hdr_set(b.p, s, v); model[s] = v; break;
+    }
+    if ((before >> 8) != (model[s] >> 8) && o.op != 2) crossed = true;
+  }
+  if (crossed) { label("count_crossed_a_byte_boundary"); nontrivial_cur(); }
+  return Verdict::pass();
+}
+
+static rc::Gen<HdrCase> genHdrCase() {
+  return rc::gen::exec([]() {
+    HdrCase c;
+    auto val = []() { return *rc::gen::weightedElement<int>({{4, 1}, {2, *range<int>(0, 300)}, {2, *rc::gen::element(255, 256, 257, 511, 512, 32767, 32768, 65535)}, {2, *range<int>(0, 65535)}}); };
+    for (int i = 0; i < 4; i++) c.init[i] = *rc::gen::weightedElement<int>({{2, 0}, {2, *rc::gen::element(254, 255, 256, 511, 65535)}, {2, *range<int>(0, 65535)}});
+    int n = *range<int>(1, 12);
+    for (int i = 0; i < n; i++) c.ops.push_back(HdrOp{*rc::gen::weightedElement<int>({{4, 0}, {3, 1}, {1, 2}}), *range<int>(0, 3), val()});
+    return c;
+  });
+}
+
 int main(int argc, char **argv) {
   E_INVAL = (int)px_const(PX_EINVAL);
   E_OVERFLOW = (int)px_const(PX_EOVERFLOW);
@@ -109,6 +180,7 @@ int main(int argc, char **argv) {
   rad_load_table();
   add_check<NameCase>("dns_name", 50000, 100, genNameCase, run_name);
   add_check<DnsCase>("dns_msg", 10000, 100, genDnsCase, run_dns);
+  add_check<HdrCase>("dns_hdr_counts", 40000, 100, genHdrCase, run_hdr);
   add_enum_check("dns_name_shapes", 100, enum_name_shapes, [](const std::string &t) { return run_name(NameCase::parse(t)); });
   add_check<PwCase>("rad_pw", 30000, 100, genPwCase, run_pw);
   add_check<RadCase>("rad_pkt", 10000, 100, genRadCase, run_rad);
